@@ -59,9 +59,13 @@ pub mod h_names {
 pub mod h_c14 {
     use super::*;
     harnesses! {
-        #[kani::unwind(7)] text_3_nozone => p_text::from_str::<_, 3, false>;
-        #[kani::unwind(11)] text_3_zone => p_text::from_str::<_, 3, true>;
-        #[kani::unwind(8)] text_4_nozone => p_text::from_str::<_, 4, false>;
+        #[kani::unwind(12)] text_l1 => p_text::from_str_len::<_, 1, false>;
+        #[kani::unwind(14)] text_ls0 => p_text::from_str_lastsym::<_, 0, false>;
+        #[kani::unwind(14)] text_ls2 => p_text::from_str_lastsym::<_, 2, false>;
+        #[kani::unwind(14)] text_ls4 => p_text::from_str_lastsym::<_, 4, false>;
+        #[kani::unwind(14)] text_ls6 => p_text::from_str_lastsym::<_, 6, false>;
+        #[kani::unwind(16)] text_ls2_zone => p_text::from_str_lastsym::<_, 2, true>;
+        #[kani::unwind(16)] text_ls6_zone => p_text::from_str_lastsym::<_, 6, true>;
         #[kani::unwind(270)] text_b_61_100 => p_text::from_str_boundary::<_, 61, 100>;
         #[kani::unwind(270)] text_b_62_100 => p_text::from_str_boundary::<_, 62, 100>;
         #[kani::unwind(270)] text_b_63_100 => p_text::from_str_boundary::<_, 63, 100>;
@@ -80,8 +84,17 @@ pub mod h_c14 {
 pub mod h_c14_t {
     use super::*;
     harnesses! {
+        #[kani::unwind(8)] text_4_nozone => p_text::from_str::<_, 4, false>;
         #[kani::unwind(12)] text_4_zone => p_text::from_str::<_, 4, true>;
         #[kani::unwind(9)] text_5_nozone => p_text::from_str::<_, 5, false>;
+        #[kani::unwind(14)] text_ls1 => p_text::from_str_lastsym::<_, 1, false>;
+        #[kani::unwind(14)] text_ls3 => p_text::from_str_lastsym::<_, 3, false>;
+        #[kani::unwind(14)] text_ls5 => p_text::from_str_lastsym::<_, 5, false>;
+        #[kani::unwind(14)] text_ls7 => p_text::from_str_lastsym::<_, 7, false>;
+        #[kani::unwind(14)] text_ls8 => p_text::from_str_lastsym::<_, 8, false>;
+        #[kani::unwind(14)] text_ls9 => p_text::from_str_lastsym::<_, 9, false>;
+        #[kani::unwind(14)] text_l2 => p_text::from_str_len::<_, 2, false>;
+        #[kani::unwind(14)] text_l3 => p_text::from_str_len::<_, 3, false>;
         #[kani::unwind(10)] text_6_nozone => p_text::from_str::<_, 6, false>;
         #[kani::unwind(14)] text_6_zone => p_text::from_str::<_, 6, true>;
         #[kani::unwind(11)] text_7_nozone => p_text::from_str::<_, 7, false>;
